@@ -75,7 +75,7 @@ def op_st(draw, kinds):
     if kind in ("Ball", "Sphere", "Box"):
         d["size"] = draw(log10_floats(-3, 1))
     elif kind == "Composite":
-        d["parts"] = draw(st.lists(op_st(["Ball", "Sphere", "Box", "Probe", "Composite2"]), min_size=1, max_size=3))
+        d["parts"] = draw(st.lists(op_st(["Ball", "Sphere", "Box", "Probe", "Composite2", "Rotation", "Translation", "TranslationRotation"]), min_size=1, max_size=3))
     elif kind == "Composite2":
         d["parts"] = draw(st.lists(op_st(["Ball", "Box", "Probe"]), min_size=1, max_size=2))
     elif kind == "Probe":
@@ -229,16 +229,27 @@ def run_draws(case):
         for i in range(case["n"]):
             if kind == "Composite":
                 clone = np.random.Generator(np.random.PCG64())
-                clone.bit_generator.state = ctx.rng.bit_generator.state
+                state0 = ctx.rng.bit_generator.state
+                clone.bit_generator.state = state0
                 rng_live = ctx.rng
                 ctx.rng = clone
-                expect = flat_sum(d, ctx)
+                expect = np.array(flat_sum(d, ctx), dtype=float)
                 ctx.rng = rng_live
                 with warnings.catch_warnings():
                     warnings.simplefilter("ignore")
-                    res = op.calculate(ctx)
-                if not np.allclose(res, expect, rtol=0, atol=1e-12 * max(1.0, np.abs(expect).max())):
+                    res = np.array(op.calculate(ctx), dtype=float)
+                if np.shape(res) != np.shape(expect) or not np.allclose(res, expect, rtol=0, atol=1e-12 * max(1.0, np.abs(expect).max())):
                     return {"labels": labels, "nontrivial": True, "violation": {"kind": "composite-not-sum", "detail": f"composite {d} returned {np.asarray(res).tolist()} but its parts sum to {np.asarray(expect).tolist()}"}}
+                # the parts are functions of (context, generator state): evaluating the composite must not change
+                # what they return for the same generator state (no result may alias state shared between calls)
+                clone.bit_generator.state = state0
+                ctx.rng = clone
+                again = np.array(flat_sum(d, ctx), dtype=float)
+                ctx.rng = rng_live
+                if np.shape(again) != np.shape(expect) or not np.array_equal(again, expect):
+                    return {"labels": labels, "nontrivial": True, "violation": {"kind": "parts-changed-by-composite-call", "detail": f"composite {d}: the same parts evaluated from the same generator state give {expect.tolist()} before and {again.tolist()} after the composite was evaluated"}}
+                if any(p["kind"] in ("Rotation", "TranslationRotation") for p in d["parts"]):
+                    labels.append("composite-with-per-atom-part")
                 continue
             with warnings.catch_warnings():
                 warnings.simplefilter("ignore")
